@@ -28,6 +28,7 @@ VARIANTS = [
     ("hashseed-2", {"hashseed": "2"}),
     ("hashseed-random", {"hashseed": "random"}),
     ("twice-in-one-process", {"twice": True}),
+    ("twice-in-one-process-same-model-object", {"twice": True, "same_model": True}),
     ("n_pool-1", {"n_pool": 1}),
     ("n_pool-2", {"n_pool": 2, "delay_us": 300}),
     ("n_pool-3", {"n_pool": 3}),
@@ -66,7 +67,9 @@ def main():
     from vlib.farm import run_cases
 
     nconf = 8 if chk.quick else len(CONFIGS)
-    variants = VARIANTS[:6] + [VARIANTS[7], VARIANTS[9], VARIANTS[10], VARIANTS[12], VARIANTS[14], VARIANTS[15]] if chk.quick else VARIANTS
+    quick_names = ["baseline", "other-process-other-hashseed", "hashseed-1", "hashseed-2", "hashseed-random", "twice-in-one-process", "twice-in-one-process-same-model-object",
+                   "n_pool-2", "n_pool-4", "user-pool-2", "chunksize-7", "parallel-prior", "pool-chunks"]
+    variants = [v for v in VARIANTS if v[0] in quick_names] if chk.quick else VARIANTS
     seeds = [0] if chk.quick else [0, 1, 2]
     cases = []
     for si in seeds:
